@@ -58,7 +58,19 @@ type delivery struct {
 	Mode string `json:"mode"` // pipelined | lockstep | sequential | concurrent
 	Cuts []int  `json:"cuts,omitempty"`
 	Kind string `json:"kind"` // whole | single | multi | dribble
+	// Shared: through a port the service shares with a payload-detecting service listed before it (whose
+	// detector rejects the stream): the dispatcher inspects the first bytes and hands them over with the rest
+	Shared bool `json:"shared_port,omitempty"`
 }
+
+func (d delivery) mode() string {
+	if d.Shared {
+		return d.Mode + "-shared-port"
+	}
+	return d.Mode
+}
+
+const sharedOff = 20000
 
 type mismatch struct {
 	D     delivery `json:"delivery"`
@@ -81,7 +93,14 @@ type scnObs struct {
 
 func config(p proto, work string) string {
 	extra := strings.ReplaceAll(p.Extra, "$WORK", work)
-	return fmt.Sprintf("[listener]\ntype=\"lab\"\n[channel.cap0]\ntype=\"lab-capture\"\nid=\"cap0\"\n[[filter]]\nchannel=[\"cap0\"]\n[service.sut]\ntype=%q\n%s[[port]]\nport=\"%s/%d\"\nservices=[\"sut\"]\n", p.Type, extra, p.Net, p.Port)
+	return fmt.Sprintf("[listener]\ntype=\"lab\"\n[channel.cap0]\ntype=\"lab-capture\"\nid=\"cap0\"\n[[filter]]\nchannel=[\"cap0\"]\n[service.sut]\ntype=%q\n%s[[port]]\nport=\"%s/%d\"\nservices=[\"sut\"]\n", p.Type, extra, p.Net, p.Port) + sharedCfg(p)
+}
+
+func sharedCfg(p proto) string {
+	if p.Net != "tcp" {
+		return ""
+	}
+	return fmt.Sprintf("[service.zzdet]\ntype=\"lab-stub-prefix\"\nname=\"zzdet\"\nprefix=\"00ff00ff5a\"\n[[port]]\nport=\"tcp/%d\"\nservices=[\"zzdet\",\"sut\"]\n", p.Port+sharedOff)
 }
 
 func classify(got, want []string) string {
@@ -164,6 +183,9 @@ func deliveries(r *core.Rng, n int, maxCuts int, oneReq bool) []delivery {
 	}
 	for _, m := range modes {
 		ds = append(ds, delivery{Mode: m, Kind: "whole"})
+		ds = append(ds, delivery{Mode: m, Kind: "whole", Shared: true})
+		// (whole writes only through the shared port: a service with a payload detector of its own is judged on
+		// the first segment, see C08 - cwmp for one wants the SOAP markers in it)
 		var cuts []int
 		if n <= 300 {
 			for c := 1; c < n; c++ {
@@ -206,7 +228,11 @@ var confirmed = map[string]int{}
 // runTCP performs one delivery and returns the canonical event list of its connection.
 func runTCP(srv *lab.Server, p proto, chunks [][]byte, d delivery, ip string, port int, expectN int, fastKey string) ([]string, bool) {
 	ev0 := lab.Events.Len()
-	cc := srv.L.DialTCP(lab.TCPAddr("10.0.0.1", p.Port), lab.TCPAddr(ip, port))
+	dport := p.Port
+	if d.Shared {
+		dport += sharedOff
+	}
+	cc := srv.L.DialTCP(lab.TCPAddr("10.0.0.1", dport), lab.TCPAddr(ip, port))
 	cl := lab.NewClient(cc)
 	if d.Mode == "pipelined" {
 		cl.SendCuts(gen.Join(chunks), d.Cuts, 2*time.Second)
@@ -406,10 +432,10 @@ func (prop) Child(b core.Batch, o *core.Obs) {
 			if eq(got, expect) {
 				return
 			}
-			cls := d.Mode + "|" + classify(got, expect)
+			cls := d.mode() + "|" + classify(got, expect)
 			ob.Classes[cls]++
 			if long {
-				confirmed[p.Name+"|"+d.Mode]++
+				confirmed[p.Name+"|"+d.mode()]++
 			}
 			if ex, ok := ob.Examples[cls]; !ok || (!ex.Confirmed && long) {
 				ob.Examples[cls] = mismatch{D: d, Got: got, Class: cls, Confirmed: long}
@@ -423,7 +449,7 @@ func (prop) Child(b core.Batch, o *core.Obs) {
 				_ = ip
 				ip = fmt.Sprintf("198.%d.%d.%d", 51+(connNo>>24)&3, (connNo>>16)&255, (connNo>>8)&255)
 				port = 10000 + connNo&255
-				got, long := runTCP(srv, p, chunks, d, ip, port, len(expect), p.Name+"|"+d.Mode)
+				got, long := runTCP(srv, p, chunks, d, ip, port, len(expect), p.Name+"|"+d.mode())
 				note(d, got, long && !eq(got, expect))
 			}
 		} else {
